@@ -18,6 +18,7 @@ from __future__ import annotations
 
 from typing import TYPE_CHECKING
 
+from numpy import arange
 from numpy import delete
 from numpy import insert
 
@@ -80,6 +81,24 @@ class RestrictedFunction(MDOFunction):
             original_name=function.original_name,
         )
 
+    def __get_full_input_vector(self, x_vect: RealArray) -> RealArray:
+        """Insert the restriction values at the restriction indices of the input vector.
+
+        Args:
+            x_vect: The design variables values.
+
+        Returns:
+            The input vector of the original function.
+        """
+        indices = self._restriction_indices
+        order = indices.argsort()
+        # numpy.insert expects positions relative to the vector before insertion.
+        return insert(
+            x_vect,
+            indices[order] - arange(indices.size),
+            self.restriction_values[order],
+        )
+
     def _func_to_wrap(self, x_vect: RealArray) -> RealArray:
         """Wrap the provided function in order to be given to the optimizer.
 
@@ -89,8 +108,7 @@ class RestrictedFunction(MDOFunction):
         Returns:
             The evaluation of the function at x_vect.
         """
-        x_full = insert(x_vect, self._restriction_indices, self.restriction_values)
-        return self._function.evaluate(x_full)
+        return self._function.evaluate(self.__get_full_input_vector(x_vect))
 
     def _jac_to_wrap(self, x_vect: RealArray) -> RealArray:
         """Wrap the provided Jacobian in order to be given to the optimizer.
@@ -101,6 +119,5 @@ class RestrictedFunction(MDOFunction):
         Returns:
             The evaluation of the Jacobian at x_vect.
         """
-        x_full = insert(x_vect, self._restriction_indices, self.restriction_values)
-        jac = self._function.jac(x_full)
-        return delete(jac, self._restriction_indices, axis=0)
+        jac = self._function.jac(self.__get_full_input_vector(x_vect))
+        return delete(jac, self._restriction_indices, axis=-1)
